@@ -100,6 +100,9 @@ def check_run(spec, obs, ref, run_idx=0, cancelled_ok=None):
 
     rres = ref['result']
     causes = rres[1] if rres[0] == 'fail' else []
+    if obs['verdict'] == 'deadlock' and not cancel:
+        P['C01'].append('no outcome under this completion order: the run hangs although the dataflow evaluation gives %s'
+                        % ('a value' if rres[0] == 'ok' else 'a failure'))
     # ---- C01 / C05 outcome
     if finished and not cancel:
         if out[0] == 'value':
@@ -193,7 +196,18 @@ def check_run(spec, obs, ref, run_idx=0, cancelled_ok=None):
         return any(cls == x or (cls, x) in issub or x == 'BaseException' for x in excs)
     state = {}
     last_start = {}
-    for e in trace:
+    for ti, e in enumerate(trace):
+        if e[0] == 'raise':
+            nd = spec['nodes'][e[1]]
+            stt = state.get(e[1])
+            if (stt is not None and nd['use_default'] and nd['mode'] in ('gated', 'immediate', 'inline')
+                    and e[2] not in ('BX', 'BaseException')
+                    and not (matches(e[2], nd['exceptions']) and stt['att'] < (nd['attempts'] or 1))):
+                # final failure of a node with a default, raised inside the engine's own coroutine: get_default is the very next thing
+                nxt = trace[ti + 1] if ti + 1 < len(trace) else None
+                if not (nxt and nxt[0] == 'default' and nxt[1] == e[1] and nxt[2] == stt['kw']):
+                    P['C12'].append('node %d: final %s failure (attempt %d) of a node with use_default, but get_default was not called with the arguments of the body'
+                                    % (e[1], e[2], stt['att']))
         if e[0] == 'start':
             i = e[1]
             stt = state.get(i)
@@ -291,6 +305,16 @@ def check_events(spec, obs, run_idx=0):
                     i += 1
                 if i < len(seq) and seq[i][2] == 'node_complete' and seq[i][4] is None:
                     i += 1
+            # one on_node_start per execution: a second start while the first execution has produced neither a completion
+            # event nor been superseded is a start without an execution behind it
+            for a, b in zip(seq, seq[1:]):
+                if a[2] == 'node_start' and b[2] == 'node_start':
+                    probs.append('node %s: two on_node_start in a row (one execution)' % nk)
+                    break
+            has_rec = any(mk[0] == 'rec' for nd in spec['nodes'] for _, mk in nd['params'])
+            if not has_rec and sum(1 for e in seq if e[2] == 'node_start') > 1:
+                probs.append('node %s: on_node_start x%d, a node of a pipeline without recurrent subgraphs executes at most once'
+                             % (nk, sum(1 for e in seq if e[2] == 'node_start')))
         # attempts vs node_complete events and value-after-complete
         key = None
         for idx, e in enumerate(trace):
